@@ -553,3 +553,25 @@ more("C19",
 more("C12",
      note="Depths 27-30 are probed on every run; failures at depths 29-30 are the recorded known finding (double precision of the half-space scores), reported as KNOWN-FINDING under a "
           "key of their own.")
+more("C18",
+     text="Failed transfers are realised with a rotation of OSError flavours (FileNotFoundError, PermissionError, IsADirectoryError, ENOSPC, EIO, errno-less OSError, TimeoutError, "
+          "ConnectionError) raised inside the real put_item, plus a 'janitor' that really deletes the in-flight temporary file; for a rotation of crash edges the killed run and the "
+          "judged re-run go through the command-line entry point (`toasty pipeline publish`).",
+     note="OSError flavours and the CLI route are sampled in rotation over the fault points; stray files at the top of the work directory are part of the replayed disk state.")
+more("C07",
+     text="Chunk-by-chunk and filtered runs also use float maps with tiles stored as FITS (big-endian on read-back) and npy; footprints containing a pole are probed in a cap around the "
+          "pole down to tiles of 4 image pixels, with the pole placed on either side of the coarse grid nodes.",
+     note="Enclosed-pole domain: tiles >= 4 image px (the sampled bound is short by < 1 px by design).")
+more("C08",
+     text="One Image object is tiled several times into pyramids of different formats / parities in seeded orders, every tiling judged (theorem ImageHistoriesOK, the "
+          "flip-the-source-in-place variant refuted); thumbnail-then-tile workflows (Builder.make_thumbnail_from_other + tile_base_as_study, the tile-study CLI with a real thumbnail) "
+          "run on PIL-backed images incl. sizes with the thumbnail's 32:15 aspect.",
+     note="A changed source Image is reported as drift only; the property is judged on the tiles.")
+more("C15",
+     note="Pyramid directories in the replay also rotate over existing / not yet existing (also two levels below what exists) at PyramidIO construction.")
+more("C17",
+     note="out_dir is spelled absolute / relative / x/../out in turn, and for the fresh ; override(other) ; reuse histories also through a symbolic link (a loudly refused override ends "
+          "the history) and by a name containing $VAR, ${VAR}, %s as plain characters with the variable pointing elsewhere; a leading ~ is not exercised.")
+more("C09",
+     text="The reference pixel of the common grid is placed on input edges (CRPIX exactly 0, 1, width, width + 1) in every input order; directory creation is one more scheduling point "
+          "of the scheduled runs, next to lock / read / write.")
